@@ -288,7 +288,15 @@ C05SackWrap(extra, desc, b) ==
                 ELSE IF t = 5 THEN <<>>
                 ELSE IF t = 6 THEN <<[form |-> "sack", delay_us |-> 450000, extra |-> <<4>>, desc |-> desc]>>
                 ELSE <<[form |-> "te", from |-> Router("sack", t), delay_us |-> 7300]>>])]
-C05All(u) == { C05Scen(v, TRUE, ds, du, dd) : v \in Variants, ds \in [1..3 -> DelaySet], du \in 0..4, dd \in {9100, 601300} }
+\* the write of probe 2 blocks inside the sink for 400 ms (a full send buffer, a shaping qdisc) while the answer to probe 1 arrives:
+\* hop 1's RTT is still its own 120 ms. REAL clock: a lock held across the blocked write would freeze a virtual clock.
+C05Stall(v) ==
+    [variant |-> v, strict |-> FALSE, min |-> 1, max |-> 3, timeout_ms |-> 700, delay_ms |-> 50, realclock |-> TRUE,
+     ipid_base |-> 41821, echo_base |-> 40000, seq_base32 |-> <<4660, 22136>>, isn32 |-> <<4660, 22136>>, sack_perm |-> TRUE, sack_ts |-> FALSE,
+     id |-> "C05/stall/" \o v, label |-> v \o "/write_blocks_while_reply_arrives",
+     write_stall_us |-> [x \in {"2"} |-> 400000],
+     path |-> PathOf([t \in 1..3 |-> IF t = 3 THEN <<[form |-> DestForm1(v), delay_us |-> 30000]>> ELSE <<[form |-> "te", from |-> Router(v, t), delay_us |-> IF t = 1 THEN 120000 ELSE 30000]>>])]
+C05All(u) == { C05Stall(v) : v \in {"icmp4", "udp4", "udp6", "sack"} } \cup { C05Scen(v, TRUE, ds, du, dd) : v \in Variants, ds \in [1..3 -> DelaySet], du \in 0..4, dd \in {9100, 601300} }
              \cup { C05Late(v, f, w) : v \in {"tcp", "tcp_paris"}, f \in {"synack", "rstack", "rst", "te"}, w \in {2, 3} }
              \cup { C05Eager(v, du) : v \in Variants, du \in 0..4 }
              \cup { C05SackWrap(x, d, b) : x \in {<<6>>, <<5, 6>>, <<>>}, d \in BOOLEAN, b \in {bb \in Bases : bb.name \in {"wrap5", "mid", "wrap"}} }
